@@ -44,12 +44,19 @@ func (sID SubscriptionID) SubscriptionIdentifier() string {
 }
 
 func (sID SubscriptionID) Unwrap() (string, MessageType, string, error) {
-	subIDParts := strings.Split(string(sID), "-")
-	if len(subIDParts) != 3 {
+	// SessionID can itself contain the separator, so MessageType and
+	// SubscriptionIdentifier are delimited by the last two separators
+	id := string(sID)
+	identifierSep := strings.LastIndex(id, "-")
+	if identifierSep == -1 {
+		return "", Unknown, "", errors.New("invalid subscriptionID")
+	}
+	msgTypeSep := strings.LastIndex(id[:identifierSep], "-")
+	if msgTypeSep == -1 {
 		return "", Unknown, "", errors.New("invalid subscriptionID")
 	}
 
-	msgType, err := strconv.ParseInt(subIDParts[1], 10, 8)
+	msgType, err := strconv.ParseInt(id[msgTypeSep+1:identifierSep], 10, 8)
 	if err != nil {
 		return "", Unknown, "", err
 	}
@@ -58,5 +65,5 @@ func (sID SubscriptionID) Unwrap() (string, MessageType, string, error) {
 		return "", Unknown, "", errors.New("invalid message type")
 	}
 
-	return subIDParts[0], MessageType(msgType), subIDParts[2], nil
+	return id[:msgTypeSep], MessageType(msgType), id[identifierSep+1:], nil
 }
